@@ -76,8 +76,10 @@ def gen_isolation(rng, i):
         r = rng.random()
         if r < 0.12:
             ops.append(['var', p, rng.choice(ISO_VARS), val()])
-        elif r < 0.22:
+        elif r < 0.19:
             ops.append(['fn', p, rng.choice(ISO_FNS), [{'a': 'ret', 'v': val()}]])
+        elif r < 0.22:
+            ops.append(['unfn', p, rng.choice(ISO_FNS)])
         elif r < 0.34:
             ops.append(['on', p, rng.choice(EVENTS), [{'a': 'set', 'v': [val()]}]])
         elif r < 0.40:
@@ -114,6 +116,8 @@ def iso_run(slots, ops, only=None):
             slot.bind_variable(op[2], op[3])
         elif kind == 'fn':
             slot.bind_function(op[2], op[3])
+        elif kind == 'unfn':
+            slot.parser.set_function(op[2], None)
         elif kind in ('on', 'once'):
             key = (p, op[2])
             idx = 100 + counters.get(key, 0)
